@@ -123,7 +123,7 @@ class C16Engine(Engine):
     bounds = {"widths": "1..1000", "generated members": "<=4 of 13 templates", "subclass depth": "<=2"}
 
     def strategies(self, tier: str):
-        return [("default", st.binary(min_size=NB, max_size=NB).map(decode), 400 if tier == "quick" else 20000)]
+        return [("default", st.binary(min_size=NB, max_size=NB).map(decode), 1200 if tier == "quick" else 30000)]
 
     def nontrivial(self, case: dict, out: dict) -> bool:
         return "members" in case or case["width"] < 40 or case["width"] > 200
